@@ -106,12 +106,22 @@ func builderScenario(h hamt.Hasher, ballast int, depth int) func(x *mc.X) {
 // collectors: seq/iterator/list ToMap and ToSet on every tuple sequence up to length 4
 func collectorScenario(h hamt.Hasher, maxLen int) func(x *mc.X) {
 	return func(x *mc.X) {
-		which := x.Choose(6, "collector")
+		which := x.Choose(8, "collector")
 		n := x.Choose(maxLen+1, "len")
 		keys := []int{0, 1, 32}
 		var ts fp.Seq[fp.Tuple2[int, int]]
 		var ks fp.Seq[int]
 		ref := map[int]int{}
+		if which >= 6 {
+			// the variadic constructors: the arguments may repeat a key (the last one wins); distinct
+			// padding puts the argument count below, at and above the 8-entry root array node
+			pad := []int{0, 5, 7}[x.Choose(3, "padding")]
+			for i := 0; i < pad; i++ {
+				ts = append(ts, fp.Tuple2[int, int]{I1: 100 + i, I2: 9})
+				ks = append(ks, 100+i)
+				ref[100+i] = 9
+			}
+		}
 		for i := 0; i < n; i++ {
 			k := mc.Pick(x, "key", keys)
 			v := x.Choose(2, "val") + 1
@@ -119,9 +129,9 @@ func collectorScenario(h hamt.Hasher, maxLen int) func(x *mc.X) {
 			ks = append(ks, k)
 			ref[k] = v
 		}
-		name := []string{"seq.ToMap", "iterator.ToMap", "list.ToMap", "seq.ToSet", "iterator.ToSet", "list.ToSet"}[which]
+		name := []string{"seq.ToMap", "iterator.ToMap", "list.ToMap", "seq.ToSet", "iterator.ToSet", "list.ToSet", "immutable.Map", "immutable.Set"}[which]
 		x.Logf("%s(%v) with hasher %s", name, ts, h.Name)
-		if which < 3 {
+		if which < 3 || which == 6 {
 			var m fp.Map[int, int]
 			switch which {
 			case 0:
@@ -130,6 +140,8 @@ func collectorScenario(h hamt.Hasher, maxLen int) func(x *mc.X) {
 				m = iterator.ToMap(iterator.FromSeq(ts), h)
 			case 2:
 				m = list.ToMap(list.Collect(iterator.FromSeq(ts)), h)
+			case 6:
+				m = immutable.Map(h, ts...)
 			}
 			if m.Size() != len(ref) {
 				x.Fail(name+"/Size", "%s(%v): Size()=%d, reference %d", name, ts, m.Size(), len(ref))
@@ -144,6 +156,14 @@ func collectorScenario(h hamt.Hasher, maxLen int) func(x *mc.X) {
 			if got := len(m.Iterator().ToSeq()); got != len(ref) {
 				x.Fail(name+"/Iterator", "%s(%v): iterator yields %d entries, reference %d", name, ts, got, len(ref))
 			}
+			for k := range ref {
+				if m2 := m.Removed(k); m2.Get(k).IsDefined() || m2.Size() != len(ref)-1 {
+					x.Fail(name+"/Removed", "%s(%v).Removed(%d): key still present (%v) or Size()=%d, reference %d", name, ts, k, m2.Get(k), m2.Size(), len(ref)-1)
+				}
+			}
+			if m3 := m.Updated(7777, 1).Updated(7778, 1); m3.Size() != len(ref)+2 || len(m3.Iterator().ToSeq()) != len(ref)+2 {
+				x.Fail(name+"/Updated", "%s(%v) plus two new keys: Size()=%d, iterator yields %d, reference %d", name, ts, m3.Size(), len(m3.Iterator().ToSeq()), len(ref)+2)
+			}
 		} else {
 			var s fp.Set[int]
 			switch which {
@@ -153,6 +173,8 @@ func collectorScenario(h hamt.Hasher, maxLen int) func(x *mc.X) {
 				s = iterator.ToSet(iterator.FromSeq(ks), h)
 			case 5:
 				s = list.ToSet(list.Collect(iterator.FromSeq(ks)), h)
+			case 7:
+				s = immutable.Set(h, ks...)
 			}
 			if s.Size() != len(ref) {
 				x.Fail(name+"/Size", "%s(%v): Size()=%d, reference %d", name, ks, s.Size(), len(ref))
@@ -165,6 +187,11 @@ func collectorScenario(h hamt.Hasher, maxLen int) func(x *mc.X) {
 			}
 			if got := len(s.Iterator().ToSeq()); got != len(ref) {
 				x.Fail(name+"/Iterator", "%s(%v): iterator yields %d elements, reference %d", name, ks, got, len(ref))
+			}
+			for k := range ref {
+				if s2 := s.Excl(k); s2.Contains(k) || s2.Size() != len(ref)-1 {
+					x.Fail(name+"/Excl", "%s(%v).Excl(%d): still contained (%v) or Size()=%d, reference %d", name, ks, k, s2.Contains(k), s2.Size(), len(ref)-1)
+				}
 			}
 		}
 		x.Observe(which, len(ref))
